@@ -692,4 +692,4 @@ def replay(ctx, path):
         print("replay passes on the current tree")
         return 0
     hseq = build_seq(ctx)
-    return vlib.replay_file(ctx, path, hseq, dcmd, judge=judge_seq)
+    return vlib.replay_file(ctx, path, hseq, dcmd, judge=judge_seq, repeat=25)
